@@ -57,13 +57,15 @@ structure EmptyLeaf (s : RS) : Prop where
   oneOf : s.oneOf = []
   anyOf : s.anyOf = []
   allOf : s.allOf = []
+  minProps : s.minProps = 0
+  maxProps : s.maxProps = none
 
 theorem emptyLeaf_of (s : RS) (h : isEmptyLeaf s = true) : EmptyLeaf s := by
   unfold isEmptyLeaf at h
   simp only [Bool.and_eq_true, Bool.not_eq_true', Option.isNone_iff_eq_none, List.isEmpty_iff,
     beq_iff_eq, bne_iff_ne, ne_eq] at h
-  obtain ⟨⟨⟨⟨⟨⟨⟨⟨⟨⟨⟨⟨⟨h1, h2⟩, _⟩, _⟩, h5⟩, h6⟩, h7⟩, h8⟩, h9⟩, h10⟩, h11⟩, h12⟩, h13⟩, h14⟩ := h
-  exact ⟨h1, h2, h5, h6, h7, h8, h9, h10, h11, h12, h13, h14⟩
+  obtain ⟨⟨⟨⟨⟨⟨⟨⟨⟨⟨⟨⟨⟨⟨⟨h1, h2⟩, _⟩, _⟩, h5⟩, h6⟩, h7⟩, h8⟩, h9⟩, h10⟩, h11⟩, h12⟩, h13⟩, h14⟩, h15⟩, h16⟩ := h
+  exact ⟨h1, h2, h5, h6, h7, h8, h9, h10, h11, h12, h13, h14, h15, h16⟩
 
 /-! ### induction over a schema and its composition members -/
 
@@ -306,6 +308,13 @@ theorem roLoopOK_iff (exro : Bool) (s : RS) (ks : List Str) :
       | true => simp
       | false => right; simpa using hs hx k hro
 
+theorem countOK_iff (s : RS) (n : Nat) :
+    countOK s n = true ↔ s.minProps ≤ n ∧ ∀ m, s.maxProps = some m → n ≤ m := by
+  unfold countOK
+  cases s.maxProps with
+  | none => simp
+  | some m => simp
+
 theorem requiredOK_iff (s : RS) (ks : List Str) :
     requiredOK s ks = true ↔ ∀ k ∈ s.required, k ∈ ks ∨ isRO (lookup k s.props) = true := by
   unfold requiredOK
@@ -329,7 +338,7 @@ theorem own_of_emptyLeaf (s : RS) (h : isEmptyLeaf s = true) :
       intro kf _
       simp only [e.props, lookup, bne_iff_ne, ne_eq]
       exact e.addl
-    simp [ownObj, e.ty, e.props, e.required, permits, roLoopOK, keys, requiredOK, hf]
+    simp [ownObj, e.ty, e.props, e.required, permits, roLoopOK, keys, requiredOK, hf, countOK, e.minProps, e.maxProps]
 
 /-! ### writeOnly plays no role -/
 
@@ -369,6 +378,7 @@ theorem clearWO_addl (s : RS) : s.clearWO.addl = s.addl := by cases s; rfl
 theorem clearWO_props (s : RS) : s.clearWO.props = clearWOProps s.props := by cases s; rfl
 theorem clearWO_items (s : RS) : s.clearWO.items = clearWOOpt s.items := by cases s; rfl
 theorem clearWO_wo (s : RS) : s.clearWO.wo = false := by cases s; rfl
+theorem clearWO_countOK (s : RS) (n : Nat) : countOK s.clearWO n = countOK s n := by cases s; rfl
 
 theorem all_congr_mem {α : Type} (l : List α) (f g : α → Bool) (h : ∀ x ∈ l, f x = g x) : l.all f = l.all g := by
   induction l with
@@ -400,7 +410,7 @@ theorem ownObj_clearWO (exro : Bool) (fs : List (Str × (RS → Bool))) (s : RS)
     cases lookup kf.1 s.props with
     | none => rfl
     | some p => simp only [Option.map_some]; exact ih kf hkf p
-  rw [clearWO_ty, h1, h2, h3]
+  rw [clearWO_ty, h1, h2, h3, clearWO_countOK]
 
 /-- the clause-by-clause twin does not see `writeOnly` flags, at any depth of the composition keywords,
 as long as the own-keyword verdict does not -/
